@@ -4,8 +4,8 @@ over a fake network.
 
 What is real:  DataServer.recv_loop / maybe_clean / send_payload / store_payload, Executor.recv_loop (the
                DatasetPublished / DatasetTransmitFailure / DatasetPurge branches), Bridge.transmit / fetch (the
-               command constructor and its index counter, used by the generator), comms.Listener (_recv_one,
-               recv_messages), comms.send_data / callback, serde (pickle framing), msg,
+               command constructor and its index counter, used by the generator), comms.Listener (__init__ over
+               a fake zmq context / poller, _recv_one, recv_messages), comms.send_data / callback, serde (pickle framing), msg,
                the WHOLE shm path: cascade.shm.client (allocate / get / purge / AllocatedBuffer / close_callback,
                _send_command with its wait-retry-timeout loop), api.ser/deser, server.LocalServer.start dispatch,
                dataset.Manager, real POSIX SharedMemory segments (unique prefix per process and host).
@@ -13,7 +13,9 @@ What is fake:  zmq sockets + poller (in-memory queues), the UDP socket between s
                request is handed to a LocalServer shell of the calling host in-process), time.sleep of the shm
                client (no-op, counted), the thread pool (ManualPool: a job runs in its own thread but only when the
                harness hands it the baton, and it can be stopped at the stage boundaries "allocate granted",
-               "writer closed", "get granted"; `wait` = run the awaited pending jobs to their end), the clock
+               "writer closed", "get granted"; `wait` without timeout = run the awaited pending jobs - all / one - to
+               their end; `wait` WITH a timeout = the fake clock advances by it and every job that had not finished is
+               returned in not_done), the clock
                (data_server.time_ns), Executor's sender / workers / child processes (stubs).
 Faults:        injected at the shm-server / socket boundary while the real client code runs: allocate or get
                answered "wait" for ever (-> TimeoutError after the client's 600 polls) or "capacity exceeded", the
@@ -92,16 +94,42 @@ class InSocket:
     def __init__(self):
         self.queue = []
 
+    def bind(self, address):
+        self.address = address
+
     def recv_multipart(self):
         return self.queue.pop(0)
 
 
 class Poller:
-    def __init__(self, sock):
+    """stands in for zmq.Poller (the real Listener.__init__ registers its socket with it)"""
+
+    def __init__(self, sock=None):
+        self.sock = sock
+
+    def register(self, sock, flags=0):
         self.sock = sock
 
     def poll(self, timeout=None):
-        return [(self.sock, 1)] if self.sock.queue else []
+        return [(self.sock, 1)] if self.sock is not None and self.sock.queue else []
+
+
+class _FakeContext:
+    """stands in for zmq.Context: `socket(zmq.PULL)` gives an in-memory queue, `bind` is a no-op"""
+
+    def socket(self, kind):
+        return InSocket()
+
+
+class _ZmqProxy:
+    """the zmq module as `cascade.executor.comms` sees it: everything real except the Poller"""
+
+    def __init__(self, real):
+        self._real = real
+        self.Poller = Poller
+
+    def __getattr__(self, k):
+        return getattr(self._real, k)
 
 
 class _ShmSock:
@@ -266,7 +294,9 @@ class FakeWatcher:
 class World:
     """The real side. `apply(op)` executes one op and returns the abstract state in the model's format."""
 
-    def __init__(self, n, stores, published=None):
+    def __init__(self, n, stores, published=None, force_wait_timeout=None):
+        # only for the replay of the witness of c07_purge_arm_waits_full_fails: the ALL_COMPLETED wait gets this timeout
+        self.force_wait_timeout = force_wait_timeout
         import multiprocessing.resource_tracker as rt
         import cascade.executor.comms as comms
         import cascade.executor.data_server as dsv
@@ -306,6 +336,12 @@ class World:
         rt.register = lambda *a, **k: None
         rt.unregister = lambda *a, **k: None
         comms.get_socket = lambda address: OutSocket(self, address)
+        comms.get_context = lambda: _FakeContext()
+        if not isinstance(comms.zmq, _ZmqProxy):
+            comms.zmq = _ZmqProxy(comms.zmq)
+        self.n_store_submits = {h: 0 for h in self.hosts}
+        self.n_purge_fwd = {h: 0 for h in self.hosts}
+        self.waits = []
         dsv.time_ns = lambda: self.now_ms * MS
         dsv.shm_client = shm_client          # the REAL client module
         dsv.wait = self.fake_wait
@@ -396,7 +432,7 @@ class World:
             x.registration = None
             self.exe[h] = x
         self.ctrl = self.mk_listener("ctrl")
-        for d in range(32):
+        for d in range(64):
             self.key(d)
         # the controller's command constructor (real Bridge.transmit / fetch)
         b = object.__new__(bridge.Bridge)
@@ -448,12 +484,42 @@ class World:
         return k
 
     def mk_listener(self, address):
-        l = object.__new__(self.comms.Listener)
-        l.address = address
-        l.socket = InSocket()
-        l.poller = Poller(l.socket)
-        l.acked = set()
+        """A REAL Listener: its __init__ runs over the fake zmq context / poller.  What `recv_messages` hands to the
+        loop is watched from outside (a generator around the returned list: the code after `yield` runs when the
+        loop asks for the next message, i.e. when the branch of the previous one is over): a payload for which no
+        store job was submitted was DISCARDED, a purge the executor did not pass on was DROPPED."""
+        l = self.comms.Listener(address)
+        orig = l.recv_messages
+        world = self
+        if address.startswith("d:h"):
+            h = int(address[3:])
+            l.recv_messages = lambda *a, **k: world._watch_ds(h, orig(*a, **k))
+        elif address.startswith("m:h"):
+            h = int(address[3:])
+            l.recv_messages = lambda *a, **k: world._watch_ex(h, orig(*a, **k))
         return l
+
+    def _watch_ds(self, h, msgs):
+        M = self.M
+        for m in msgs:
+            n0 = self.n_store_submits[h]
+            if isinstance(m, M.DatasetTransmitPayload):
+                self.observations.append({"kind": "payload-read", "h": h, "ds": self.dsno(m.header.ds),
+                                          "idx": m.header.confirm_idx, "op": self.opno})
+            yield m
+            if isinstance(m, M.DatasetTransmitPayload) and self.n_store_submits[h] == n0:
+                self.events.append({"e": "ignored", "h": h, "ds": self.dsno(m.header.ds), "idx": m.header.confirm_idx})
+                self.observations.append({"kind": "payload-ignored", "h": h, "ds": self.dsno(m.header.ds),
+                                          "idx": m.header.confirm_idx, "op": self.opno})
+
+    def _watch_ex(self, h, msgs):
+        M = self.M
+        for m in msgs:
+            n0 = self.n_purge_fwd[h]
+            yield m
+            if isinstance(m, M.DatasetPurge) and self.n_purge_fwd[h] == n0:
+                self.events.append({"e": "purgeDropped", "h": h, "ds": self.dsno(m.ds)})
+                self.observations.append({"kind": "purge-dropped", "h": h, "ds": self.dsno(m.ds), "op": self.opno})
 
     def _sleep(self, s):
         self.sleeps += 1
@@ -582,6 +648,8 @@ class World:
             self.seen_submit[h].add(c.idx)
             self.events.append({"e": "submit", "h": h, "idx": c.idx, "ds": self.dsno(c.ds), "retry": retry})
             self.observations.append({"kind": "submit-send", "h": h, "idx": c.idx, "ds": self.dsno(c.ds), "retry": retry, "op": self.opno})
+        elif fn.__name__ == "store_payload":
+            self.n_store_submits[h] += 1
 
     def key_json(self, k):
         if isinstance(k, self.M.DatasetTransmitCommand):
@@ -644,7 +712,9 @@ class World:
             self.exe[h].mlistener.socket.queue.append(list(parts))
             return
         if address.startswith("ipc://"):
-            return                                   # a worker's socket: no workers here
+            # a worker's socket: the executor shells have NO workers, so nothing may be sent there
+            self.events.append({"e": "to-worker?", "to": address, "n": len(parts)})
+            return
         if len(parts) == 3 and job is not None and job.name == "send_payload":
             if job.fault is not None and job.fault[0] == "fail":
                 job.fault = None
@@ -661,6 +731,7 @@ class World:
                 h = self.cur_exec
                 self.events.append({"e": "purgeFwd", "h": h, "ds": self.dsno(m.ds)})
                 self.observations.append({"kind": "purge-forwarded", "h": h, "ds": self.dsno(m.ds), "op": self.opno})
+                self.n_purge_fwd[h] += 1
                 self.srv[self.aid(address)].dlistener.socket.queue.append(list(parts))
                 return
         self.net.append((address, parts))
@@ -681,23 +752,44 @@ class World:
             self.observations.append({"kind": "ctrl-other", "h": h, "what": repr(m)[:200], "op": self.opno})
 
     def fake_wait(self, futs, timeout=None, return_when=ALL_COMPLETED):
+        """`concurrent.futures.wait` over the manual pool.  Without a timeout the call blocks: the pool runs the
+        awaited pending jobs (all of them / one of them), in the order of the scheduler oracle.  WITH a timeout the
+        fake clock decides: a pool job that has not finished yet needs longer than any finite timeout (a transfer of
+        a large dataset, a shm server under memory pressure), so the call returns after `timeout` seconds of fake
+        time with those jobs in `not_done` - which is what the real `wait` does then."""
+        from concurrent.futures._base import DoneAndNotDoneFutures
         futs = list(futs)
+        if timeout is None and self.force_wait_timeout is not None and return_when == ALL_COMPLETED:
+            timeout = self.force_wait_timeout
         pool = self.pools[self.cur]
+        allf = list(self.srv[self.cur].futs_in_progress.values()) if self.cur in self.srv else []
+        self.waits.append({"h": self.cur, "op": self.opno, "timeout": timeout, "return_when": return_when,
+                           "n": len(futs), "all": len(futs) == len(allf) and all(any(a is f for f in futs) for a in allf)})
 
         def cands():
             return [j for j in pool.jobs if any(j.fut is f for f in futs)]
+
+        def result():
+            done = {f for f in futs if f.done()}
+            return DoneAndNotDoneFutures(done, set(futs) - done)
+        if timeout is not None:
+            if cands() and not (return_when == FIRST_COMPLETED and any(f.done() for f in futs)):
+                self.now_ms += int(timeout * 1000)
+                self.observations.append({"kind": "wait-timed-out", "h": self.cur, "op": self.opno, "timeout": timeout,
+                                          "not_done": len(cands())})
+            return result()
         if return_when == FIRST_COMPLETED:
             if any(f.done() for f in futs):
-                return
+                return result()
             c = cands()
             if c:
                 k = self.sched.pop(0) if self.sched else 0
                 c[k % len(c)].resume(False)
-            return
+            return result()
         while True:
             c = cands()
             if not c:
-                return
+                return result()
             k = self.sched.pop(0) if self.sched else 0
             c[k % len(c)].resume(False)
 
@@ -771,7 +863,7 @@ class World:
         self.sched = list(op.get("sched", []))
         self.observations.append({"kind": "tick-begin", "h": h, "op": self.opno, "now": self.now_ms,
                                   "awaiting": {i: (self.dsno(c.ds), at) for i, (c, at) in srv.awaiting_confirmation.items()},
-                                  "acks": set(getattr(srv, "acks", ())), "invalid": {self.dsno(d) for d in srv.invalid},
+                                  "acks": repr(getattr(srv, "acks", ())), "invalid": repr(srv.invalid),
                                   "sock": [self.frame_json((self.aname(h), p)) for p in srv.dlistener.socket.queue]})
         srv._arm = 1
         try:
@@ -866,6 +958,21 @@ class World:
             return {"t": "plain", "dst": self.aid(addr), "m": self.msg_json(pickle.loads(parts[0]))}
         return {"t": "?", "dst": self.aid(addr), "n": len(parts)}
 
+    def _sorted_or_repr(self, x, f=lambda v: v):
+        try:
+            return sorted(f(v) for v in x)
+        except Exception:
+            return ["?", repr(x)[:200]]
+
+    def acked_json(self, listener):
+        """`Listener.acked` as the model has it (a set of Syn(idx, addr)); whatever else a changed __init__ makes of it is
+        shown as it is (a disagreement), the run goes on so that the oracle gets to see the history"""
+        a = listener.acked
+        try:
+            return sorted([x.idx, self.aid(x.addr)] for x in a)
+        except Exception:
+            return ["?", repr(a)[:200]]
+
     def shm_view(self, h):
         """(store, allocd, other) read from the real Manager and the real segments"""
         store, allocd, other = [], [], []
@@ -910,10 +1017,10 @@ class World:
             hj = {
                 "store": store,
                 "awaiting": [[i, self.cmd_json(c), None if at == -1 else at // MS] for i, (c, at) in s.awaiting_confirmation.items()],
-                "acks": sorted(getattr(s, "acks", ())),
-                "invalid": sorted(self.dsno(d) for d in s.invalid),
+                "acks": self._sorted_or_repr(getattr(s, "acks", ())),
+                "invalid": self._sorted_or_repr(s.invalid, self.dsno),
                 "futs": futs,
-                "acked": sorted([x.idx, self.aid(x.addr)] for x in s.dlistener.acked),
+                "acked": self.acked_json(s.dlistener),
                 "sock": [self.frame_json((self.aname(h), p)) for p in s.dlistener.socket.queue],
                 "crashed": self.crashed[h],
                 "allocd": allocd,
@@ -924,7 +1031,7 @@ class World:
                 hj["shm_other"] = other
             hosts.append(hj)
         return {"hosts": hosts, "net": [self.frame_json(f) for f in self.net], "now": self.now_ms,
-                "ctrlAcked": sorted([x.idx, self.aid(x.addr)] for x in self.ctrl.acked),
+                "ctrlAcked": self.acked_json(self.ctrl),
                 "events": list(self.events)}
 
     # ---- end of a case: no thread, no segment left behind
@@ -962,5 +1069,8 @@ def canon_model(out):
         h["allocd"] = sorted(h["allocd"])
         h["published"] = sorted(h["published"])
     out["ctrlAcked"] = sorted(out["ctrlAcked"])
-    out["events"] = [e for e in out["events"] if e["e"] not in ("ignored", "ackRecv", "purgeDropped")]
+    # `ignored` (a payload of a purged dataset discarded) and `purgeDropped` (a purge the executor did not pass on) ARE
+    # compared: the real run observes them at the listeners (World._watch_ds / _watch_ex).  `ackRecv` is not an event
+    # of its own on the real side: its effect is the `acks` set, which is part of the compared state.
+    out["events"] = [e for e in out["events"] if e["e"] != "ackRecv"]
     return out
